@@ -747,15 +747,16 @@ func (n *RegexNode) eliminateEndingBacktracking() {
 	if verifRewritesOff() {
 		return
 	}
-	// The analysis below (which node runs last, what can follow a loop) reads the tree
-	// left to right; it has not been validated for right-to-left nodes (lookbehinds,
-	// atomic groups of a RightToLeft pattern).
-	if n.Options&RightToLeft != 0 {
-		return
-	}
 	// Walk the tree starting from the current node.
 	node := n
 	for {
+		// The analysis below (which node runs last, what can follow a loop) reads the tree
+		// left to right; it has not been validated for right-to-left nodes (lookbehinds,
+		// atomic groups of a RightToLeft pattern), whether the walk starts at one or
+		// reaches one in tail position.
+		if node.Options&RightToLeft != 0 {
+			return
+		}
 		switch node.T {
 		// {One/Notone/Set}loops can be upgraded to {One/Notone/Set}loopatomic nodes, e.g. [abc]* => (?>[abc]*).
 		// And {One/Notone/Set}lazys can similarly be upgraded to be atomic, which really makes them into repeaters
